@@ -4247,9 +4247,25 @@ impl<'a> Parser<'a> {
                 self.advance();
                 // Parse as function type, the 'new' prefix just marks it as a constructor
                 // For our runtime purposes, we just parse and discard the type annotation
+                let type_parameters = self.parse_optional_type_parameters()?;
                 match self.try_parse_function_type()? {
-                    Some(func_type) => Ok(func_type),
-                    None => Err(self.unexpected_token("constructor type")),
+                    Some(TypeAnnotation::Function(mut func_type)) => {
+                        func_type.type_parameters = type_parameters;
+                        Ok(TypeAnnotation::Function(func_type))
+                    }
+                    _ => Err(self.unexpected_token("constructor type")),
+                }
+            }
+
+            // Generic function type: <T>(x: T) => T
+            TokenKind::Lt => {
+                let type_parameters = self.parse_optional_type_parameters()?;
+                match self.try_parse_function_type()? {
+                    Some(TypeAnnotation::Function(mut func_type)) => {
+                        func_type.type_parameters = type_parameters;
+                        Ok(TypeAnnotation::Function(func_type))
+                    }
+                    _ => Err(self.unexpected_token("function type")),
                 }
             }
 
